@@ -149,6 +149,9 @@ def run_model(lines, workdir):
 
 
 def run_impl(lines, workdir, extra_env=None):
+    """Runs the implementation on the cases. The harness flushes one answer per line; when the process
+    dies (allocation abort, stack overflow) the case it was working on is reported as `abort` and a fresh
+    harness process continues with the next one."""
     env = dict(ENV)
     if extra_env:
         env.update(extra_env)
@@ -157,12 +160,48 @@ def run_impl(lines, workdir, extra_env=None):
         p = subprocess.run([HARNESS_BIN, "exec", cases, outp], stdout=subprocess.DEVNULL,
                            stderr=subprocess.DEVNULL, env=env, cwd=workdir)
         return p.returncode
-    rc, outs = _run_file(cmd, lines, workdir, "impl")
-    if rc != 0 or len(outs) != len(lines):
-        if len(lines) == 1:
-            return ["abort"]
-        mid = len(lines) // 2
-        return run_impl(lines[:mid], workdir, extra_env) + run_impl(lines[mid:], workdir, extra_env)
+    result = []
+    rest = list(lines)
+    guard = 0
+    while rest:
+        rc, outs = _run_file(cmd, rest, workdir, "impl")
+        if rc == 0 and len(outs) == len(rest):
+            result += outs
+            break
+        done = outs[:len(rest)]
+        # a partially written last line cannot occur: answers are written and flushed whole
+        result += done
+        if len(done) < len(rest):
+            result.append("abort")
+            rest = rest[len(done) + 1:]
+        else:
+            rest = []
+        guard += 1
+        if guard > 2000:
+            result += ["abort"] * len(rest)
+            break
+    return result
+
+
+def run_impl_parallel(lines, workdir, extra_env, nproc, chunk_of):
+    """runs disjoint groups of cases in concurrent harness processes (each with its own directory)"""
+    import threading
+    groups = {}
+    for idx, l in enumerate(lines):
+        groups.setdefault(chunk_of(l) % nproc, []).append(idx)
+    outs = [None] * len(lines)
+
+    def work(k, idxs):
+        d = os.path.join(workdir, "p%d" % k)
+        os.makedirs(d, exist_ok=True)
+        res = run_impl([lines[i] for i in idxs], d, extra_env)
+        for i, r in zip(idxs, res):
+            outs[i] = r
+    ths = [threading.Thread(target=work, args=(k, idxs)) for k, idxs in groups.items()]
+    for t in ths:
+        t.start()
+    for t in ths:
+        t.join()
     return outs
 
 
